@@ -269,3 +269,149 @@ def build(spec):
     if k == "Nowhere":
         return R.nowhere
     raise ValueError(k)
+
+
+# ------------------------------------------------------------------------------------------
+# histories: several operations in sequence on the SAME region object
+# ------------------------------------------------------------------------------------------
+
+SHARED_KINDS = ["Footprint", "Footprint", "Footprint", "Polygon", "Box", "MeshVol", "Circle"]
+HISTORY_PARTNERS = ["Box", "Spheroid", "MeshVol", "MeshSurf", "Path", "Box", "Path"]
+
+
+def gen_history(rnd):
+    """One shared region and 3-4 partners met one after the other.  Partners differ by orders
+    of magnitude in vertical extent (0.1 ... 600) and sit at far-apart heights, so that whatever
+    the shared object memoised for an earlier partner (bounded footprints, cached results) does
+    not fit the later ones."""
+    s = rnd.uniform(2.0, 6.0)
+    zp = float(r3(rnd.choice([0.0, rnd.uniform(-2, 2), rnd.uniform(-30, 30)])))
+    c = [r3(rnd.uniform(-40, 40)), r3(rnd.uniform(-40, 40)), zp]
+    shared_kind = rnd.choice(SHARED_KINDS)
+    shared = gen_shape(shared_kind, rnd, {"c": c, "zp": zp, "s": s, "members": []})
+    n = rnd.randint(3, 4)
+    heights = [10 ** rnd.uniform(-1, 0.5), 10 ** rnd.uniform(1.8, 2.8), 10 ** rnd.uniform(-1, 2.8),
+               10 ** rnd.uniform(0.5, 2.8)][:n]
+    if rnd.random() < 0.4:
+        rnd.shuffle(heights)
+    partners = []
+    zc = zp + rnd.uniform(-1, 1)
+    for h in heights:
+        k = rnd.choice(HISTORY_PARTNERS)
+        h = float(r3(h))
+        zc = float(r3(zc + rnd.uniform(-0.45, 0.45) * h))
+        ctr = [r3(c[0] + rnd.uniform(-0.4, 0.4) * s), r3(c[1] + rnd.uniform(-0.4, 0.4) * s), zc]
+        w = [r3(s * rnd.uniform(0.3, 1.5)), r3(s * rnd.uniform(0.3, 1.5))]
+        yaw = [r3(rnd.uniform(-math.pi, math.pi)), 0.0, 0.0]
+        if k in ("Box", "Spheroid"):
+            spec = {"kind": k, "dims": [w[0], w[1], h], "pos": ctr, "rot": yaw}
+        elif k == "MeshSurf":
+            spec = {"kind": k, "base": "box", "dims": [w[0], w[1], h], "pos": ctr, "rot": yaw}
+        elif k == "MeshVol":
+            spec = {"kind": k, "poly": gen_poly(rnd, 0.0, 0.0, s * 0.6, multi=False), "height": h,
+                    "pos": ctr, "rot": yaw}
+        else:  # Path: mostly vertical runs through / beside the shared region
+            pl = []
+            for j in range(rnd.randint(2, 4)):
+                pl.append([r3(c[0] + rnd.uniform(-0.8, 0.8) * s), r3(c[1] + rnd.uniform(-0.8, 0.8) * s),
+                           float(r3(zc + (j % 2 - 0.5) * h * rnd.uniform(0.7, 1.0)))])
+            spec = {"kind": "Path", "lines": [pl]}
+        partners.append(spec)
+    return shared, partners
+
+
+# ------------------------------------------------------------------------------------------
+# containment: a convex (often very thin) container and a region placed inside it with margin
+# ------------------------------------------------------------------------------------------
+
+CONTAINERS = ["Rectangle", "Rectangle", "Circle", "Polygon", "Box", "Box", "Spheroid", "Footprint"]
+INNERS_FLAT = ["Polyline", "PointSet", "Polygon", "Rectangle", "Circle", "Path"]
+INNERS_SOLID = ["Path", "PointSet", "Box", "Polyline", "Spheroid"]
+
+
+def gen_contained(rnd):
+    """(container, inner, inside): `inner` lies within 55% of the container's half extents
+    (inside=True) or has one piece pushed clearly out of it (inside=False).  Containers are
+    convex and thin in 2/3 of the cases (aspect up to 1:80), inner regions of lower dimension
+    are made long / numerous so that their measure *number* exceeds the container's."""
+    import numpy as np
+
+    L = rnd.uniform(4.0, 30.0)
+    thin = rnd.random() < 0.67
+    W = L / rnd.uniform(10, 80) if thin else L * rnd.uniform(0.4, 1.0)
+    kind = rnd.choice(CONTAINERS)
+    inside = rnd.random() < 0.75
+    solid = kind in ("Box", "Spheroid")
+    inner_kind = rnd.choice(INNERS_SOLID if solid else INNERS_FLAT)
+    z = 0.0 if (inner_kind == "Polyline" and not solid) or rnd.random() < 0.2 else float(r3(rnd.uniform(-20, 20)))
+    c = [r3(rnd.uniform(-30, 30)), r3(rnd.uniform(-30, 30)), z]
+    heading = r3(rnd.uniform(-math.pi, math.pi))
+    ch, sh = math.cos(heading), math.sin(heading)
+
+    def to_world(u, v, w=0.0):  # container-local (u along width, v along length) -> world
+        return [r3(c[0] + ch * u - sh * v), r3(c[1] + sh * u + ch * v), float(r3(c[2] + w))]
+
+    H = W * rnd.uniform(0.5, 2.0) if solid else 0.0
+    if kind == "Rectangle":
+        cont = {"kind": kind, "pos": c, "heading": heading, "width": r3(W), "length": r3(L)}
+        hu, hv = W / 2, L / 2
+    elif kind == "Circle":
+        cont = {"kind": kind, "center": c, "radius": r3(L / 2)}
+        hu = hv = L / 2 / math.sqrt(2)
+    elif kind in ("Polygon", "Footprint"):
+        corners = [to_world(su * W / 2, sv * L / 2)[:2] for su, sv in ((1, 1), (-1, 1), (-1, -1), (1, -1))]
+        cont = {"kind": kind, "poly": [[corners, []]]}
+        if kind == "Polygon":
+            cont["z"] = z
+        hu, hv = W / 2, L / 2
+    else:
+        cont = {"kind": kind, "dims": [r3(W), r3(L), r3(H)], "pos": c, "rot": [heading, 0.0, 0.0]}
+        f = 1.0 if kind == "Box" else 1 / math.sqrt(3)
+        hu, hv, H = f * W / 2, f * L / 2, f * H
+    m = 0.55
+    flat_in = not solid and kind != "Footprint"
+
+    def pt(out=False):
+        u, v = rnd.uniform(-m, m) * hu, rnd.uniform(-m, m) * hv
+        w = 0.0 if flat_in else (rnd.uniform(-m, m) * H / 2 if solid else rnd.uniform(-5, 5))
+        if out:
+            u = (1.0 + rnd.uniform(0.5, 2.0)) * hu * rnd.choice([-1, 1]) + rnd.choice([-1, 1]) * 0.2
+        return to_world(u, v, w)
+
+    if inner_kind in ("Polyline", "Path"):
+        n = rnd.randint(4, 14)  # zig-zag: long compared with the container's area / volume
+        pts = [to_world((-1) ** j * m * hu * rnd.uniform(0.6, 1.0), (-m + 2 * m * j / (n - 1)) * hv,
+                        0.0 if flat_in else (rnd.uniform(-m, m) * H / 2 if solid else rnd.uniform(-5, 5)))
+               for j in range(n)]
+        if not inside:
+            pts[rnd.randrange(n)] = pt(out=True)
+        if inner_kind == "Polyline":
+            pts = [[p[0], p[1], 0.0] for p in pts]
+            inner = {"kind": "Polyline", "lines": [[p[:2] for p in pts]]}
+            if c[2] != 0.0 and not solid and kind != "Footprint":
+                inside = False  # a polyline lives at z = 0, the container does not
+            if solid and abs(0.0 - c[2]) > m * H / 2:
+                inside = inside and False
+        else:
+            inner = {"kind": "Path", "lines": [pts]}
+    elif inner_kind == "PointSet":
+        pts = [pt() for _ in range(rnd.randint(3, 40))]
+        if not inside:
+            pts[rnd.randrange(len(pts))] = pt(out=True)
+        inner = {"kind": "PointSet", "points": pts}
+    else:
+        ctr = pt(out=not inside)
+        r = 0.3 * min(hu, hv) * rnd.uniform(0.3, 1.0)
+        if inner_kind == "Polygon":
+            inner = {"kind": "Polygon", "poly": [[convex_polygon(rnd, ctr[0], ctr[1], r, rnd.randint(3, 6)), []]],
+                     "z": ctr[2]}
+        elif inner_kind == "Rectangle":
+            inner = {"kind": "Rectangle", "pos": ctr, "heading": r3(rnd.uniform(-3, 3)),
+                     "width": r3(r), "length": r3(r)}
+        elif inner_kind == "Circle":
+            inner = {"kind": "Circle", "center": ctr, "radius": r3(r)}
+        else:
+            rr = 0.3 * min(hu, hv, H / 2 if H else hu)
+            inner = {"kind": inner_kind, "dims": [r3(rr), r3(rr), r3(rr)], "pos": ctr,
+                     "rot": [r3(rnd.uniform(-3, 3)), 0.0, 0.0]}
+    return cont, inner
